@@ -7,9 +7,11 @@ CLAIMS = {
     'C15': dict(
         text="Proof (Lean 4): identifier, PGN and NAME codecs — the definitions regenerated from message_id.py / parameter_group_number.py / "
              "name.py on every run — are exact inverses on their whole domain (all 2^29 identifiers, all field values, all 2^64 NAME values, "
-             "all accepted field tuples, 8-byte little-endian form) with every field at its SAE position; 15 theorems, full strength.",
+             "all accepted field tuples, 8-byte little-endian form) with every field at its SAE position; the order of two NAME values is the "
+             "order of their bytes from the MOST significant byte down (c15_name_order_is_msb_first), never the transmitted list order; full strength.",
         note="Trusted: Lean kernel; translator py2lean (validated differentially against the real classes on every run); Python ints as Nat. "
-             "NAME comparison used in arbitration is tied by the C04 model/correspondence.",
+             "That the arbitration handler compares these values is the C04 model (c04_contender_value_exact, lock-step correspondence) and the "
+             "C15 arbitration oracle on a real controller application (NAME pairs whose value order and byte-list order differ).",
         technique="Lean 4 theorems over source-regenerated definitions (omega after bit-op normal forms) + translator self-validation",
         design="§8 C15"),
     'C12': dict(
@@ -167,7 +169,8 @@ CLAIMS = {
              "NAMEs a claim of one is on its way to the other) preserved by every event (step_inv, run_inv), hence c04_unique_at_quiescence — "
              "from any network in which nobody has claimed yet, whenever all claims on the bus are handled, two nodes at the same address "
              "(operational or waiting for a veto) have the same NAME; c04_at_kept_by_step — a node stays at its address through every event "
-             "except handling a claim for it from a lower NAME.  Partial: settling within bounded time and latency-0 re-entrancy are "
+             "except handling a claim for it from a lower NAME; c04_claim_dispatch — both data link layers hand the frame a CA sends to the CAs "
+             "of every receiving stack as a claim from its source, whatever those CAs accept (the delivery step of the network model).  Partial: settling within bounded time and latency-0 re-entrancy are "
              "established by the network oracle on real stacks; CAs started with claiming bypassed are outside the theorem.",
         note="Proved for the code as repaired by fix D10 (state before send). Oracle: 2-4 CAs, NAMEs differing in one field at a time, AAC mix, "
              "start/claim-delay grid around the veto window, latencies {0, 1, 5 ms}.",
@@ -221,7 +224,11 @@ CLAIMS = {
              "group of 1..60 bytes once, in order, with its own 18-bit PGN and identical bytes, for EVERY list of groups (induction) and the "
              "padding the builder appends (three zero bytes then 0xAA) is skipped; a placed group sits in exactly one buffer whose deadline is "
              "<= its own and the thread is woken unless that buffer already had an earlier deadline; the pass sends every due buffer and asks "
-             "to be woken no later than any remaining deadline.  Partial: the composition of these steps over the thread's sleep/wake schedule "
+             "to be woken no later than any remaining deadline.  End to end (c11_frame_end_to_end, c11_immediate_end_to_end, "
+             "c11_flush_end_to_end): send_pgn without a limit, or the pass over a due buffer, puts exactly one extended frame on the bus and "
+             "ANY receiving stack (any state, any time) that accepts the destination hands its subscribers exactly those groups, identifier "
+             "parsed through the real dispatch; placing adds a group to the waiting set exactly once and flushing removes exactly the buffer's "
+             "groups (c11_place_once, multiset counts over every history).  Partial: the composition of these steps over the thread's sleep/wake schedule "
              "('on the bus no later than the limit plus scheduling latency') is checked by the oracle on real stacks, not one Lean theorem.",
         note="Proved for the code as repaired by fix D6 (wake-up on a new/earlier deadline). Tie: header arithmetic and buffer keys are "
              "regenerated from j1939_22.py; packing/first-fit/serving/unpacking in Model/Dll22.lean tied by lock-step correspondence on "
